@@ -58,4 +58,11 @@ theorem Inv.aScan_facts {s : State} (hI : Inv s) {a : Actor} {f cur : Nat} {hd :
       subst this
       rw [h1] at hmg; cases hmg
 
+macro "as_simp" : tactic => `(tactic|
+  simp only [setPc_pc, setPc_box, setPc_node, setPc_lock, setPc_fr, setPc_glist, setPc_hnext, setPc_wslot, setPc_bad,
+    setPrev_pc, setPrev_box, setPrev_node, setPrev_lock, setPrev_fr, setPrev_glist, setPrev_hnext, setPrev_wslot, setPrev_bad,
+    setNext_pc, setNext_box, setNext_node, setNext_lock, setNext_fr, setNext_glist, setNext_hnext, setNext_wslot, setNext_bad])
+macro "as_auto" : tactic => `(tactic| (as_simp; grind (instances := 4000) (splits := 20) [updA, upd, Pc.isWait, Pc.fresh, Pc.pre, Pc.post, Pc.locks, Pc.pend,
+  MemOk, CancelPending, tailOf_append_single]))
+
 end Babylon.Coro
